@@ -125,6 +125,8 @@ static void exact_multi(int t, int bb, int n_in, int n_out, int reps) {
             gin.s->a[i] = (int32_t) v;
         }
         gin.s->b = rng.i32();
+        // the variance annotation of the input is advisory: zero (as for a mask written by hand), tiny, typical, huge
+        { static const double vars[] = {0., 1e-300, 1e-18, 9.3e-10 /* 2^-15 squared */, 6.1e-5 /* 2^-7 squared */, 0.25, 7.75}; gin.s->current_variance = vars[rng.below(7)]; }
         lweKeySwitch(gout.s, K.ks, gin.s);
         U ph = ref_lwe_phase(gout.s, K.s_out.data(), n_out);
         U R = (U) gin.s->b - ph; U sa = 0;
